@@ -258,6 +258,18 @@ pub fn run(ctx: &Ctx) -> i32 {
         });
         if std::env::var("VERIF_TIMING").is_ok() { eprintln!("[timing] c13.rs inner 102: {:.1}s", ctx.run.started.elapsed().as_secs_f64()); }
     }
+    // whole test cases of 500+ identical graphemes (after class conversion)
+    {
+        let cases: Vec<(Vec<String>, Settings)> = vec![
+            (vec!["a".repeat(500)], Settings::with(REP, 1, 2)),
+            (vec!["7".repeat(505), "x".to_string()], Settings::with(REP | DIGIT, 1, 2)),
+            (vec!["-".repeat(512)], Settings::with(REP, 2, 3)),
+        ];
+        par_for(&ctx.run, cases.len(), |i, st| {
+            st.count("runs_of_500_and_more");
+            check_case(ctx, st, &cases[i].0, cases[i].1);
+        });
+    }
     // thresholds set before conversion is enabled, with a build in between
     {
         let n = if ctx.thorough { 20_000 } else { 1_500 };
